@@ -14,13 +14,27 @@ import (
 // C18: the byte-string helpers, called directly. Slices are built with exact capacity (ab), helpers that
 // work in place get a private copy whose final content is part of the result.
 func init() {
+	register("C18", &propDriver{run: func(args [][]string) []string {
+		switch ai(args[0][0]) {
+		case 28: // a helper called on buf[:n] of a larger, dirty buffer: c18env.go
+			return c18window(args)
+		case 29: // helpers called by several goroutines of this process at the same time: c18env.go
+			return c18conc(args)
+		}
+		return c18run(args, ab)
+	}})
+}
+
+// c18run calls one helper; mk builds the byte-slice arguments from their token groups (ab: exact capacity; the
+// window operation 28 hands over buf[:n] of a larger buffer instead).
+func c18run(args [][]string, ab func([]string) []byte) []string {
 	// len(first) first... second...
 	two := func(first, second []byte) []string {
 		out := []string{"0", oi(int64(len(first)))}
 		out = append(out, ob(first)...)
 		return append(out, ob(second)...)
 	}
-	register("C18", &propDriver{run: func(args [][]string) []string {
+	{
 		switch ai(args[0][0]) {
 		case 1:
 			return ok(oi(int64(types.Cstrlen(ab(args[1])))))
@@ -133,5 +147,5 @@ func init() {
 			return c18io(args)
 		}
 		return []string{"9"}
-	}})
+	}
 }
